@@ -355,29 +355,42 @@ def rule_dupcheck(program, ctx):
         "fails, and a later resubmission is acknowledged but silently dropped",
         floor=1,
     )
+    from ..lib import expand_aliases, guard_atoms
+
     run_fn = program.func("nostr_relay.storage.kv:WriterThread.run")
-    tests = [n for n in ast.walk(run_fn) if isinstance(n, ast.If) and "operation == 'add'" in ast.unparse(n.test)]
-    if not tests:
+    # the statements that apply an 'add' task: the index writes / _post_save reached under `operation == 'add'`
+    sites = []
+    for c in walk_no_nested(run_fn):
+        if isinstance(c, ast.Call) and isinstance(c.func, ast.Attribute) and c.func.attr in ("write", "_post_save") and not call_name(c).startswith("INDEXES["):
+            atoms = guard_atoms(c, stop=run_fn)
+            if any(ast.unparse(e) == "operation == 'add'" and pol for e, pol in atoms):
+                sites.append((c, atoms))
+    if not sites:
         ctx.bad(finding_func(P, rid, run_fn, "writer has no 'add' branch", text="def run(...) :: add"))
         return
-    t = tests[0]
-    parts = t.test.values if isinstance(t.test, ast.BoolOp) and isinstance(t.test.op, ast.And) else [t.test]
-    extra = []
-    dup = False
-    for v in parts:
-        txt = ast.unparse(v)
-        if txt == "operation == 'add'":
-            continue
-        if isinstance(v, ast.UnaryOp) and isinstance(v.op, ast.Not) and isinstance(v.operand, ast.Call) and call_name(v.operand) == "get_event_data" and dotted(v.operand.args[0]) == "txn" and ast.unparse(v.operand.args[1]).endswith(".id_bytes"):
-            dup = True
-            continue
-        extra.append(txt)
-    if extra:
-        ctx.bad(finding_at(P, rid, t, f"the writer's add branch also depends on `{extra[0][:60]}`: events can be skipped although they are not in the store (acknowledged OK=true, never stored)"))
-    elif not dup:
-        ctx.bad(finding_at(P, rid, t, "the writer no longer skips events whose primary record already exists: a resubmission rewrites indexes / re-runs supersede and deletions"))
-    else:
-        ctx.ok(rid, t, "add iff not get_event_data(txn, event.id_bytes)")
+    for c, atoms in sites:
+        dup = False
+        extra = []
+        for e, pol in atoms:
+            txt = ast.unparse(e)
+            if txt == "operation == 'add'" and pol:
+                continue
+            if isinstance(e, ast.Compare) and dotted(e.left) == "operation":
+                continue  # other arms of the dispatch chain
+            if isinstance(e, ast.Call) and call_name(e) == "get_event_data" and len(e.args) == 2 and dotted(e.args[0]) == "txn" and ast.unparse(e.args[1]).endswith(".id_bytes"):
+                if not pol:
+                    dup = True
+                    continue
+            ee = expand_aliases(run_fn, e)
+            if "get(operation" in ast.unparse(ee) or txt in ("task is None", "task", "self.running"):
+                continue  # the dispatch-table lookup / loop control
+            extra.append(("" if pol else "not ") + txt)
+        if extra:
+            ctx.bad(finding_at(P, rid, c, f"the writer's add branch also depends on `{extra[0][:60]}`: events can be skipped although they are not in the store (acknowledged OK=true, never stored)"))
+        elif not dup:
+            ctx.bad(finding_at(P, rid, c, "the writer no longer skips events whose primary record already exists: a resubmission rewrites indexes / re-runs supersede and deletions"))
+        else:
+            ctx.ok(rid, c, f"{call_name(c)}: add iff not get_event_data(txn, event.id_bytes)")
 
 
 def rule_drain(program, ctx):
